@@ -561,6 +561,26 @@ def rule_embed_sources(check, model, rules):
             check.violation(rules['union'], st, 'result provenance map is built from %s only' % sorted(parts), key=key, guards=gtext,
                             effect=show(init)[:200], witness="embed(s('a, *args'), s('b')).sources lacks 'a' or 'b'")
             continue
+        # the entry of an outer star parameter leaves the map only when that star is forwarded (replaced by the inner
+        # one); with the flag off the result keeps the outer star and must keep its entry
+        g_, unk_ = embed_guards(model, p)
+        for e in p.effects:
+            if e.kind == 'mut' and e.op in ('pop', 'delitem') and e.args and e.args[0][0] == 'A' and e.args[0][2] == 'name':
+                b = model.sides.bucket(e.args[0][1])
+                if b is None or b[0] != 'outer' or proto.kind_at(b[1]) not in ('VP', 'VK'):
+                    continue
+                kind = proto.kind_at(b[1])
+                flag = model.params[2] if kind == 'VP' else model.params[3]
+                fv = g_.get(('flag', flag))
+                kf = '_signatures:_embed|starpop-flag|%s|%s' % (kind, fv)
+                if fv is True:
+                    check.holds(rules['union'], site(None, e.node), 'the outer %s entry is removed only when %s forwards it' % (kind, flag), key=kf)
+                else:
+                    check.violation(rules['union'], site(None, e.node), 'the provenance entry of the outer %s is removed %s: with the flag off the '
+                                    'result keeps the outer %s, which is left without an entry' % (
+                                        '*args' if kind == 'VP' else '**kwargs', 'although %s is false' % flag if fv is False else
+                                        'without testing %s' % flag, '*args' if kind == 'VP' else '**kwargs'), key=kf, guards=gtext,
+                                    witness="embed(s('a, **kwargs'), s('b'), use_varkwargs=False).sources['kwargs']")
         # deletions on the united map keyed by an outer parameter name
         bad = False
         for e in p.effects:
